@@ -1,5 +1,5 @@
 (* C03 -- origin map.  Property theorems only; proofs live in PP/OriginFacts.v. *)
-From SV Require Import Origin OriginFacts.
+From SV Require Import Origin OriginFacts Eval CopyFacts.
 
 (* For every operation tree (pushes and nested merges = everything preprocess does to a
    PreprocessedText) and every position: the lookup is the per-byte provenance array. *)
@@ -47,3 +47,49 @@ Example C03_D3_refuted_without_fix :
   pt_origin (fold_left (run_op false) ops pt_new) 12 = ONone /\
   pt_origin (run_ops true ops) 12 = OSome [116] 14.
 Proof. vm_compute. split; reflexivity. Qed.
+
+(* The emission sites of the event loop.  Wherever the loop copies a node's own text -- ordinary text,
+   string literals and escaped identifiers, compiler directives kept in the output, blanks, comments --
+   the pushed chunk is the slice [l_off, l_off + l_len) of the source and the recorded origin is that
+   very range of the file being read; with C03_origin_refines, output byte k of the chunk then maps to
+   (file, l_off + k).  Text synthesised for `__FILE__ / `__LINE__ is pushed without origin; an expansion
+   is attributed to the file of the definition at an offset not before the definition's text. *)
+Theorem C03_site_text : forall c rec s p ignore strip rdepth idepth t x x',
+  kind t = K_SourceDescriptionNotDirective ->
+  step3 c rec s p ignore strip rdepth idepth (Enter t) x = ROk x' -> copies s p t t x x'.
+Proof. exact site_text. Qed.
+
+Theorem C03_site_string : forall c rec s p ignore strip rdepth idepth t ch x x',
+  kind t = K_SourceDescription -> children t = [ch] ->
+  (kind ch =? K_StringLiteral) || (kind ch =? K_EscapedIdentifier) = true ->
+  step3 c rec s p ignore strip rdepth idepth (Enter t) x = ROk x' -> copies s p t ch x x'.
+Proof. exact site_string. Qed.
+
+Theorem C03_site_kept_directive : forall c rec s p ignore strip rdepth idepth t x x',
+  is_kept_kind (kind t) = true ->
+  step3 c rec s p ignore strip rdepth idepth (Enter t) x = ROk x' ->
+  exists x1, copies s p t t x x1 /\ x' = set_skipws true x1.
+Proof. exact site_kept. Qed.
+
+Theorem C03_site_blank : forall c rec s p ignore strip rdepth idepth t x x',
+  kind t = K_WhiteSpace_Space -> s_skipws x = false ->
+  step3 c rec s p ignore strip rdepth idepth (Enter t) x = ROk x' -> copies s p t t x x'.
+Proof. exact site_blank. Qed.
+
+Theorem C03_site_comment : forall c rec s p ignore idepth t x x',
+  kind t = K_Comment ->
+  step3 c rec s p ignore false 0 idepth (Enter t) x = ROk x' -> copies s p t t x x'.
+Proof. exact site_comment. Qed.
+
+Theorem C03_site_synthesised : forall s p t x x',
+  position_enter s p t x = ROk x' ->
+  s_out x' = s_out x \/ exists text, s_out x' = text :: s_out x /\ s_ops x' = Push (blen text) None :: s_ops x.
+Proof. exact site_position. Qed.
+
+Theorem C03_copied_chunk_provenance : forall p l n k,
+  (k < n)%N -> prov_at (Push n (Some (p, lrange l))) k = OSome p (k + l_off l).
+Proof. exact copied_chunk_provenance. Qed.
+
+Theorem C03_expansion_chunk_provenance : forall p r n k,
+  exists o, prov_at (Push n (Some (p, r))) k = OSome p o /\ (rb r <= o)%N.
+Proof. exact expansion_chunk_provenance. Qed.
